@@ -24,9 +24,9 @@ which evaluate the executable predicates of `Uquic.Model.ChWire` (proved in `Uqu
   datagram_tail_is_padding     behind the last long header packet of a datagram that holds an Initial packet there
                                is nothing, zeros only (UDPDatagramMinSize), or a short header packet — never stale
                                buffer contents (the packet buffer pool is poisoned with 0xA5-filled buffers)
-  client_packer_does_not_panic the client's packer never panics (class coalesced_behind_padded_initial: the
-                               known finding C11-coalesced-behind-padded-initial — a Handshake / 1-RTT packet
-                               appended behind an Initial packet that was zero-padded to UDPDatagramMinSize)
+  client_packer_does_not_panic the client's packer never panics (found: a Handshake / 1-RTT packet appended behind
+                               an Initial packet that was zero-padded to UDPDatagramMinSize overran the packet
+                               buffer; repaired in /repo by 9faccbf, regression corpus coalesced-behind-padded-initial)
 -/
 
 open Uquic.Oracle Uquic.Model.ChWire
@@ -136,10 +136,7 @@ def monitors (o : DialObs) : List (String × String × String) × List String :=
   let mut tags : List String := [s!"hs:{o.hs}"]
   -- the client must survive
   for pn in o.panics do
-    let cls := if pn.startsWith "encryptPacket<appendShortHeaderPacket:runtime_error:_slice_bounds_out_of_range" ||
-        pn.startsWith "encryptPacket<appendLongHeaderPacket:runtime_error:_slice_bounds_out_of_range"
-      then "coalesced_behind_padded_initial" else "-"
-    fails := fails ++ [("client_packer_does_not_panic", cls, s!"the client's packer panicked: {pn}")]
+    fails := fails ++ [("client_packer_does_not_panic", "-", s!"the client's packer panicked: {pn}")]
     tags := tags ++ ["packer-panic"]
   -- what follows the packets of a datagram
   for t in o.tails do
